@@ -219,15 +219,15 @@ type Finding struct {
 }
 
 func (e *Env) Emit(fn *ssa.Function, f Finding) {
+	pos := e.Pos(f.Pos)
+	if d := os.Getenv("PLYCHECK_DUMP"); d != "" && (d == "all" || fn == nil || !e.IsCtl(fn)) {
+		fmt.Printf("  %-9s %-7s %s @%s %s %v\n", f.Verdict, f.Rule, f.Construct, pos, f.Msg, f.Facts)
+	}
 	if fn != nil && e.IsCtl(fn) {
 		if f.Verdict != ob.Holds {
 			e.CtlReport(f.Rule, fn)
 		}
 		return
-	}
-	pos := e.Pos(f.Pos)
-	if os.Getenv("PLYCHECK_DUMP") != "" {
-		fmt.Printf("  %-9s %-7s %s @%s %s %v\n", f.Verdict, f.Rule, f.Construct, pos, f.Msg, f.Facts)
 	}
 	switch f.Verdict {
 	case ob.Holds:
